@@ -74,14 +74,26 @@ class Arr04:
 
     # ---------------------------------------------------------------------------------------------------
     def run_trial(self, dmg, label):
-        """dmg: list of ('d', pos, disk, file, idx, shape) | ('p', pos, level, shape) | ('swap', disk, file, i, j)"""
+        """dmg: list of ('d', pos, disk, file, idx, shape) | ('p', pos, level, shape) | ('swap', disk, file, i, j)
+        | ('t', disk, file): the file is only TOUCHED (same bytes, new time-stamp, not synced): not a corruption, nothing may be
+        reported for it; but scrub compares the parity of its stripes as 'unsynced' (a parity mismatch there is a plain
+        error, not a bad mark), while a silent corruption of ANOTHER, synced file of the stripe must still be marked bad"""
         a, chk, rng = self.arr, self.chk, self.rng
         restore(a, self.sv)
         self.n['trials'] += 1
         data_dmg = set()    # (pos, disk, sub)
         par_dmg = set()     # (pos, level)
         desc = []
+        touched = set()     # stripes holding a block of a touched file
         for x in dmg:
+            if x[0] == 't':
+                _, d, f = x
+                p = a.path(d, sub2rel(f['sub']))
+                st_ = os.stat(p)
+                os.utime(p, ns=(st_.st_mtime_ns + 3 * 10**9, st_.st_mtime_ns + 3 * 10**9))
+                touched |= set(pos for s_, pos, h in f['blocks'])
+                desc.append('touch %s:%s' % (d, sub2rel(f['sub'])))
+                continue
             if x[0] == 'd':
                 _, pos, d, f, i, sh = x
                 damage_file_block(a, d, sub2rel(f['sub']), i, rng, sh)
@@ -178,7 +190,8 @@ class Arr04:
             bad.append('scrub reports parity errors %s, expected %s' % (sorted(got_par), sorted(exp_par_scrub)))
         if (r.rc != 0) != bool(exp_data or exp_par):
             bad.append('scrub exits %d with damage %s' % (r.rc, sorted(exp_data | exp_par)))
-        exp_bad = sorted(set(pos for pos, d, sub in data_dmg) | set(pos for pos, l in par_dmg if pos in used))
+        # a parity mismatch in a stripe that holds a touched (unsynced) file is a plain error: reported, not marked
+        exp_bad = sorted(set(pos for pos, d, sub in data_dmg) | set(pos for pos, l in par_dmg if pos in used and (pos not in touched or pos in stripes_with_data_err) and pos not in (touched - stripes_with_data_err)))
         r = a.run('status', '-G')
         got_bad = sorted(int(t.split(':')[1]) for t in r.tags if t.startswith('block:') and t.split(':')[5] == 'bad')
         if got_bad != exp_bad:
@@ -232,6 +245,24 @@ class Arr04:
                     i, j = rng.sample(full, 2)
                     self.run_trial([('swap', dname, f, i, j)], 'swap')
 
+    def touched_neighbours(self, n):
+        """a silently corrupted block of a synced file in a stripe where ANOTHER disk holds a block of a touched file"""
+        a, rng = self.arr, self.rng
+        cands = []
+        for pos, blocks in sorted(self.stripes.items()):
+            if len(blocks) >= 2:
+                for dp, (s, d, f, i, h) in blocks.items():
+                    for dp2, (s2, d2, f2, i2, h2) in blocks.items():
+                        if dp2 != dp:
+                            cands.append((pos, d, f, i, d2, f2))
+        rng.shuffle(cands)
+        for (pos, d, f, i, d2, f2) in cands[:n]:
+            self.run_trial([('t', d2, f2), ('d', pos, d, f, i, rng.choice(SHAPES))], 'touched_neighbour')
+            if rng.random() < 0.4:
+                self.run_trial([('t', d2, f2), ('p', pos, rng.randrange(a.np), rng.choice(SHAPES))], 'touched_parity')
+            if len(self.chk.violations) > 8:
+                return
+
     def combos(self, n):
         a, rng = self.arr, self.rng
         blocks = self.data_blocks()
@@ -240,6 +271,12 @@ class Arr04:
             k = rng.randint(2, 5)
             dmg = []
             seen = set()
+            if rng.random() < 0.3 and blocks:
+                # a touched file that is not corrupted itself
+                pos, d, f, i = rng.choice(blocks)
+                dmg.append(('t', d, f))
+                for j in range(len(f['blocks'])):
+                    seen.add((d, f['sub'], j))
             for _ in range(k):
                 if rng.random() < 0.55 and blocks:
                     pos, d, f, i = rng.choice(blocks)
@@ -292,6 +329,8 @@ def main(tier, replay=None):
                     dmg.append(('d', x[1], x[2], byname[(x[2], x[3])], x[4], x[5]))
                 elif x[0] == 'p':
                     dmg.append(tuple(x))
+                elif x[0] == 't':
+                    dmg.append(('t', x[1], byname[(x[1], x[2])]))
                 else:
                     dmg.append(('swap', x[1], byname[(x[1], x[2])], x[3], x[4]))
             A.run_trial(dmg, 'replay')
@@ -307,6 +346,7 @@ def main(tier, replay=None):
         A = Arr04(chk, binary, model, g, seed)
         if A.ok:
             A.singles(2 if tier == 'quick' else 6)
+            A.touched_neighbours(8 if tier == 'quick' else 60)
             A.combos(15 if tier == 'quick' else 120)
         A.close()
         return A
